@@ -222,6 +222,40 @@ func render(c *scCase) (*rendered, string) {
 			r.lit(" = ")
 			initOr1(i, it)
 			r.lit("\n\n")
+		case "pvar2", "pconst2":
+			if it.Op == "pvar2" {
+				r.lit("var ")
+			} else {
+				r.lit("const ")
+			}
+			r.id(i, "n")
+			r.lit(", ")
+			r.id(i, "k")
+			r.lit(" = 1, 2\n\n")
+		case "define2", "lvar2", "lconst2":
+			ind()
+			switch it.Op {
+			case "lvar2":
+				r.lit("var ")
+			case "lconst2":
+				r.lit("const ")
+			}
+			r.id(i, "n")
+			r.lit(", ")
+			r.id(i, "k")
+			if it.Op == "define2" {
+				r.lit(" := 1, 2\n")
+			} else {
+				r.lit(" = 1, 2\n")
+			}
+			if it.Op != "lconst2" {
+				ind()
+				r.lit("_, _ = ")
+				r.id(i, "au")
+				r.lit(", ")
+				r.id(i, "auk")
+				r.lit("\n")
+			}
 		case "pconst":
 			r.lit("const ")
 			r.id(i, "n")
@@ -609,6 +643,11 @@ func checkScopesCase(idx int, c *scCase) hlib.Result {
 			what := "elsewhere"
 			if how != "infile" {
 				what = how
+			} else if o, ok := tagOf(p); ok {
+				// declared at ANOTHER name of the same multi-name declaration
+				if o2, ok2 := tagOf(op); ok2 && o2.I == o.I && isDeclCls(o2.Cls) {
+					what = "second-name"
+				}
 			}
 			dk := "other-" + kindOf(obj)
 			if o, ok := tagOf(p); ok {
